@@ -22,6 +22,7 @@ const modPath = "github.com/resgateio/resgate"
 // Prog is the loaded, type-checked program in SSA form plus the indexes the
 // rules work on. Everything is rebuilt from the working tree on every run.
 type Prog struct {
+	implDepth   int // recursion depth of helperImplies
 	boundMakers map[*ssa.Function][]*ssa.MakeClosure // bound-method wrapper -> the places that make the method value
 	fieldSeen   map[string]string                    // anchor -> type, recorded for `resverif anchors`
 	Dir         string
@@ -323,11 +324,17 @@ func (p *Prog) Field(q string) *types.Var {
 		for k := 0; k < st.NumFields(); k++ {
 			f := st.Field(k)
 			all = append(all, f)
-			if f.Embedded() && depth < 3 {
-				ft := f.Type()
-				if pt, ok := ft.Underlying().(*types.Pointer); ok {
-					ft = pt.Elem()
-				}
+			// fields promoted from embedded structs, and fields of a nested struct value of one of the
+			// repository's own types (state grouped into a small struct: counts, a queue wrapper, a set)
+			ft := f.Type()
+			if pt, ok := ft.Underlying().(*types.Pointer); ok && f.Embedded() {
+				ft = pt.Elem()
+			}
+			nested := false
+			if nt, ok := ft.(*types.Named); ok && nt.Obj() != nil && nt.Obj().Pkg() != nil && strings.HasPrefix(nt.Obj().Pkg().Path(), modPath) {
+				nested = true
+			}
+			if (f.Embedded() || nested) && depth < 3 {
 				if es, ok := ft.Underlying().(*types.Struct); ok {
 					collect(es, depth+1)
 				}
@@ -362,13 +369,12 @@ func (p *Prog) Field(q string) *types.Var {
 			if _, named := anchorFieldTypes[q[:i+1]+f.Name()]; named {
 				continue
 			}
-			if types.TypeString(f.Type(), shortQual) == want {
+			if anchorTypeMatches(f.Type(), want) {
 				if hit >= 0 {
 					return nil
 				}
 				hit = k
 			}
-			_ = anchorTypeMatches
 		}
 		if hit >= 0 {
 			p.fuzzy = append(p.fuzzy, q+" -> "+names[hit]+" (by type "+want+")")
